@@ -96,6 +96,7 @@ def generate(job):
         spec["which"] = rs.choice(["generate_toy", "generate_toy_p", "generate_toy_p"])
         spec["cseed"] = rs.randrange(1 << 30)
         spec["calls"] = rs.choice([1, 2, 2, 3])
+        spec["interrupt"] = rs.choice([0, 0, 500, 5000, 30000])
     elif kind == "bins":
         spec["n"] = rs.choice([64, 100, 257, 1000, 4096])
         spec["dim"] = rs.choice([1, 2, 2, 3])
@@ -449,6 +450,21 @@ def run_toy(spec, log):
     for call in range(spec["calls"]):
         if call:
             cards.randomize_params(amp, Stream(spec["cseed"], "p", call), 1.5)
+        if spec.get("interrupt") and call == 0:
+            # a generation that is interrupted by an exception; the next call must be complete and exact again
+            from sim.seams import InjectedFault, LineTracer
+            import sys
+
+            tr = LineTracer(fire_at=spec["interrupt"], exc_type=InjectedFault)
+            try:
+                try:
+                    with tr:
+                        with rng_seam(spec["rng_seed"] + 99):
+                            getattr(config, spec["which"])(N, max_N=spec["max_N"])
+                finally:
+                    sys.settrace(None)
+            except InjectedFault:
+                log.count("fault.toy_generation_interrupted")
         with rng_seam(spec["rng_seed"] + call):
             if spec["which"] == "generate_toy":
                 d = config.generate_toy(N, max_N=spec["max_N"])
